@@ -556,6 +556,8 @@ def c03_chunk(args):
             out["samples"].append({"seed": seed, "prefix": pre, "stream": [f.hex() for f in frames],
                                    "variants": len(variants)})
     out["digests"] = len(out["digests"])
+    for v in out["viol"]:
+        v["chunk"] = ["c03", base, start, count, tier, v["seed"] - base]
     return out
 
 
@@ -799,6 +801,8 @@ def c19_chunk(args):
         if len(out["samples"]) < 1 and len(HA) + len(HB) < 40:
             out["samples"].append({"seed": seed, "A": [s for _, s in HA][:20], "B": [s for _, s in HB][:20]})
     out["digests"] = len(out["digests"])
+    for v in out["viol"]:
+        v["chunk"] = ["c19", base, start, count, tier, v["seed"] - base]
     return out
 
 
@@ -967,6 +971,14 @@ def replay(ns, rp):
     elif k == "c17lw":
         r = long_wrap(ns, rp.get("seed", 0))
         ok, msg = (not r["viol"]), (r["viol"][0]["msg"] if r["viol"] else "")
+    elif k == "chunk":
+        # the whole case (or the whole batch slice) in which the violation occurred, in the order it
+        # was run: for violations that depend on what earlier runs of the same process left behind
+        fn = c03_chunk if rp["fn"] == "c03" else c19_chunk
+        r = fn((rp["base"], rp["start"], rp["count"], rp["tier"]))
+        want = rp.get("signature", "").split(":")[0]
+        hit = [v for v in r["viol"] if v["sig"].startswith(want)]
+        ok, msg = (not hit), (hit[0]["msg"] if hit else "")
     elif k in ("c02rl", "deepq"):
         from sim import extremes
         r = extremes.rl_limit(ns, rp.get("tier", "quick"), rp.get("seed", 0)) if k == "c02rl" \
@@ -1049,6 +1061,22 @@ def main(ns, prop, tier, seed, write_evidence, known):
         with open(path, "w") as f:
             json.dump(rp, f, indent=1)
         ok, msg = replay(ns, json.load(open(path)))
+        if ok and e.get("chunk"):
+            # not a function of this case alone: replay the case with all its runs, then the batch
+            # slice, each in a fresh interpreter
+            import subprocess, sys
+            fnname, cb, cs, cc, ct, ci = e["chunk"]
+            for (st_, cn_) in ((ci, 1), (cs, cc)):
+                with open(path, "w") as f:
+                    json.dump({"kind": "chunk", "property": prop, "fn": fnname, "base": cb, "start": st_, "count": cn_, "tier": ct,
+                               "signature": e["sig"], "message": e["msg"],
+                               "note": "reproduces only together with the runs that precede it in the same process",
+                               "replay_cmd": "./check %s --replay %s" % (prop, path)}, f, indent=1)
+                pr = subprocess.run([sys.executable, os.path.join(VERIF, "check"), prop, "--replay", path],
+                                    capture_output=True, text=True, timeout=900)
+                if pr.returncode == 1:
+                    ok = False
+                    break
         if ok:
             errors.append("violation %s did not reproduce from its replay file" % e["sig"])
             continue
